@@ -451,6 +451,8 @@ def targetJ (cfg : Cfg) (ds : Docs) (doc : Nat) (text : String) (k : Kind) : Tgt
           | some (.obj kvs) => .raw d path (.obj kvs)
           | _ => .err
         else .err
+      -- `resolveRefAndDocument`: the other document is loaded (decoded as `T`) before anything is drilled
+      if d != doc && !((ds.doc? d).map JV.isObj).getD false then .err else
       match drillText cfg ds drillFuel doc text with
       | .panic => .drillPanic
       | .err => rawTgt ()
@@ -671,20 +673,22 @@ theorem targetOf_never_panics (cfg : Cfg) (ha : cfg.apGuarded = true) (hn : cfg.
     · rfl
     · simp only
       split
-      · rename_i h; exact absurd h hsafe.1
+      · rfl
       · split
-        · split <;> rfl
-        · rfl
-      · split
-        · rfl
+        · rename_i h; exact absurd h hsafe.1
         · split
           · split <;> rfl
           · rfl
-      · rename_i ty h
-        have := hsafe.2 _ h
-        simp [Cur.isNil] at this
-      · rfl
-      · rfl
+        · split
+          · rfl
+          · split
+            · split <;> rfl
+            · rfl
+        · rename_i ty h
+          have := hsafe.2 _ h
+          simp [Cur.isNil] at this
+        · rfl
+        · rfl
 
 theorem closeRefs_all (P : Tgt → Prop) (tgt : Nat → Nat → Kind → Tgt) (ht : ∀ d h k, P (tgt d h k)) :
     ∀ fuel todo seen, (∀ e ∈ seen, P e.2) → ∀ e ∈ closeRefs tgt fuel todo seen, P e.2 := by
